@@ -2,7 +2,7 @@ INIT Init
 NEXT Next
 CONSTANTS
   MaxLen = 2
-  CoreLen = 3
+  CoreLen = 2
   TightLen = 3
   QLen = 3
   SLen = 3
